@@ -532,6 +532,47 @@ func disposableOf(instance any) (Disposable, bool) {
 	return d, true
 }
 
+// storeOutputOnce is storeOutput for the outputs of one constructor invocation,
+// collected in stored. A constructor may hand back one instance as several of
+// its outputs (a buffer as its reader and as its writer): the instance is made
+// available under each of those identities, but it is tracked for disposal -
+// and so closed - only once.
+func (s *scope) storeOutputOnce(stored *[]any, descriptor *Descriptor, key instanceKey, value any) error {
+	repeated := false
+	if v := reflect.ValueOf(value); v.Kind() == reflect.Pointer && !v.IsNil() && v.Type().Elem().Size() > 0 {
+		// only a pointer to something of non-zero size identifies an instance
+		for _, earlier := range *stored {
+			if e := reflect.ValueOf(earlier); e.Kind() == reflect.Pointer && e.Type() == v.Type() && e.Pointer() == v.Pointer() {
+				repeated = true
+				break
+			}
+		}
+	}
+	*stored = append(*stored, value)
+
+	if !repeated {
+		return s.storeOutput(descriptor, key, value)
+	}
+	if !s.rootProvider.registers(descriptor) {
+		return nil
+	}
+
+	switch descriptor.Lifetime {
+	case Singleton:
+		s.rootProvider.publishSingleton(key, value)
+	case Scoped:
+		s.instancesMu.Lock()
+		if s.instances == nil {
+			s.instancesMu.Unlock()
+			return ErrScopeDisposed
+		}
+		s.instances[key] = value
+		s.instancesMu.Unlock()
+	}
+
+	return nil
+}
+
 var (
 	contextType  = reflect.TypeOf((*context.Context)(nil)).Elem()
 	providerType = reflect.TypeOf((*Provider)(nil)).Elem()
@@ -729,6 +770,7 @@ func (s *scope) createInstance(descriptor *Descriptor) (any, error) {
 		// Find the primary service to return
 		var primaryService any
 		var storeErr error
+		var stored []any
 		produced := make(map[string]struct{}, len(registrations))
 		for _, reg := range registrations {
 			value := reg.Value
@@ -767,7 +809,7 @@ func (s *scope) createInstance(descriptor *Descriptor) (any, error) {
 			}
 
 			// Keep going on failure so that every output is accounted for
-			if err := s.storeOutput(regDescriptor, key, value); err != nil {
+			if err := s.storeOutputOnce(&stored, regDescriptor, key, value); err != nil {
 				storeErr = err
 			}
 		}
@@ -815,6 +857,7 @@ func (s *scope) createInstance(descriptor *Descriptor) (any, error) {
 	// Handle multi-return constructors
 	if descriptor.MultiReturnIndex >= 0 {
 		var storeErr error
+		var stored []any
 		for _, ret := range info.Returns {
 			if ret.IsError {
 				continue
@@ -844,7 +887,7 @@ func (s *scope) createInstance(descriptor *Descriptor) (any, error) {
 			}
 
 			// Keep going on failure so that every output is accounted for
-			if err := s.storeOutput(serviceDescriptor, key, value); err != nil {
+			if err := s.storeOutputOnce(&stored, serviceDescriptor, key, value); err != nil {
 				storeErr = err
 			}
 		}
